@@ -227,6 +227,10 @@ class Ctx:
         if finding_key:
             self.known_hits[finding_key] = self.known_hits.get(finding_key, 0) + 1
             return
+        if len(self.violations) >= 300:
+            # enough replay files for one run: further violations are counted and share the last file
+            self.violations.append((self.violations[-1][0], summary))
+            return
         h = hashlib.sha1(json.dumps(payload, sort_keys=True).encode()).hexdigest()[:12]
         path = os.path.join(REPLAY, "%s-%s.json" % (self.prop, h))
         payload = dict(payload)
